@@ -5,6 +5,7 @@ import (
 	"crypto/cipher"
 	"crypto/rand"
 	"encoding/base64"
+	"errors"
 	"fmt"
 	"io"
 
@@ -119,6 +120,9 @@ func (e GCM) Decrypt(key interface{}, ciphertextEl *etree.Element) ([]byte, erro
 		return nil, err
 	}
 
+	if len(ciphertext) < aesgcm.NonceSize() {
+		return nil, errors.New("ciphertext too short")
+	}
 	nonce := ciphertext[:aesgcm.NonceSize()]
 	text := ciphertext[aesgcm.NonceSize():]
 
